@@ -259,9 +259,9 @@ def put(key, data, label=False, lother=0):
     return {"op": "put", "key": list(key), "data": [list(x) for x in data], "label": label, "lother": 0 if label else lother}
 
 
-def scen(tns, tmpl, store, steps, watch=(), env=1, iv=(30, 60), hs=False, hcs=()):
+def scen(tns, tmpl, store, steps, watch=(), env=1, iv=(30, 60), hs=False, hcs=(), desc=False):
     return {"iv_res": iv[0], "iv_opt": iv[1], "tns": tns, "tmpl": tmpl, "store": store, "watch": [list(w) for w in watch],
-            "env": env, "hs": hs, "hcs": list(hcs), "steps": steps}
+            "env": env, "hs": hs, "hcs": list(hcs), "desc": desc, "steps": steps}
 
 
 def passx(*adv):
@@ -370,6 +370,13 @@ def corpus():
              [P, put((1, 1, 1), [(1, 6)]), P]),
         scen(1, T(1, [S(1, 0, 1)], code(form=7)), [cm1],
              [P, {"op": "tedit", "sources": [S(1, 0, 1, items=((1, 2),))], "code": code(form=7)}, P, put((1, 1, 100), [(2, 5), (1002, 9), (2002, 9)]), D]),
+        # the source kind is also watched by owners of other kinds (owner 3: the cluster-scoped / namespaced sibling kind) and by
+        # another template of the same kind (owner 2), in both orders of the owner list the enqueue handler sees
+    ] + [
+        scen(tns, T(tns, [S(1, 0 if tns else 1, 1)], code(kind=1, ns=0 if tns else 1)), [cm1], [P, put((1, 1, 1), [(1, 6)]), D, {"op": "del", "key": [1, 1, 1]}, D],
+             watch=w, desc=desc)
+        for tns in (1, 0) for desc in (False, True) for w in ([(1, 3)], [(1, 2), (1, 3)], [(1, 3), (2, 3)])
+    ] + [
         # empty destination in a source item (was a panic before a818a7e): SourceError
         scen(1, T(1, [S(1, 0, 1, items=((1, 0),))], code()), [cm1], [P, P]),
         scen(1, T(1, [S(1, 0, 1, items=((1, 1), (1, 0)))], code()), [cm1], [P]),
@@ -497,8 +504,8 @@ def gen(seed, tier):
                 tm["del"] = True
         watch = []
         for kind in (1, 2, 3):
-            for owner in (1, 2):
-                if r.random() < 0.15:
+            for owner in (1, 2, 3):
+                if r.random() < (0.3 if owner == 3 else 0.15):
                     watch.append([kind, owner])
         hyper = r.random() < 0.3
         hs0 = hyper and r.random() < 0.8
@@ -577,7 +584,7 @@ def gen(seed, tier):
         elif r.random() < 0.6:
             steps[-1] = dict(P)
         out.append(scen(tns, tm, store, steps, watch=watch, env=r.randint(1, 9),
-                        iv=r.choice([(30, 60)] * 6 + [(0, 60), (30, 0), (0, 0)]), hs=hs0, hcs=hcs0))
+                        iv=r.choice([(30, 60)] * 6 + [(0, 60), (30, 0), (0, 0)]), hs=hs0, hcs=hcs0, desc=r.random() < 0.5))
     return out
 
 
@@ -698,7 +705,8 @@ def check(run, tier, seed, replay=None):
         "(3/4) or cluster-scoped template, 0-3 sources (ConfigMap / Secret / cluster-scoped kind / unregistered kind; namespace "
         "empty, own, other; required or optional; 1-2 items), template from the family x target kind x rendered namespace x "
         "owner references, arbitrary initial template state (finalizer, Invalid condition, conditions, controllerOf, deleting), "
-        "pre-existing targets and cache owners, 1-8 steps of source create/edit/delete, target status writes, template edit, "
+        "pre-existing targets and cache owners (the template itself, another template of its kind, an owner of another kind; the owner list "
+        "reaches the real enqueue handler in ascending or descending order), 1-8 steps of source create/edit/delete, target status writes, template edit, "
         "template delete, environment change and controller passes; objects carry the cache label with the exact value, with "
         "another value (\"true\", \"False\", \"\") or not at all; 25% of the passes of ordinary histories run with a schedule of third-party "
         "deletions / modifications of sources and API faults (NotFound, Conflict, InternalError) placed before their n-th request; 30% of "
